@@ -162,7 +162,9 @@ def _vnum_extra():
     def __rtruediv__(self, o): return VNum.of(o).__truediv__(self)
     def __abs__(self): return self if self >= 0 else -self
     def __pos__(self): return self
-    def __bool__(self): return self.n != 0
+    def __bool__(self):
+        if self.n != 0: return True
+        return False
     def __int__(self): return int(self.n // self.d) if self.n >= 0 else -int((-self.n) // self.d)
     def __round__(self, nd=None):
         if nd is None:
